@@ -152,6 +152,8 @@ class Net:
     # ---- other verdict helpers
     def job_problems(self):
         probs = []
+        if self.bus.storm:
+            probs.append("frame storm: more than %d frames on the bus" % self.bus.cap)
         for st in self.stacks:
             lt = st.job
             if lt.exc is not None:
